@@ -23,7 +23,9 @@ VERIF = os.path.dirname(os.path.dirname(os.path.abspath(__file__)))
 BUILD = os.path.join(VERIF, "build")
 CACHE = os.path.join(BUILD, "c20cache")
 CLANG = os.environ.get("VERIF_CLANG", "clang++-14")
-EXTRACTOR_VERSION = "7"
+EXTRACTOR_VERSION = "9"
+
+NAMING = json.load(open(os.path.join(os.path.dirname(os.path.abspath(__file__)), "c20_naming.json")))
 
 STD_CLASSES = {
     "std::bad_alloc": "bad_alloc", "std::invalid_argument": "invalid_argument",
@@ -131,10 +133,40 @@ def callee_name(call):
     return None
 
 
+def split_params(ftype):
+    """parameter types of a function type string `R (A, B, C)`."""
+    i = ftype.find("(")
+    if i < 0:
+        return []
+    depth, cur, out = 0, "", []
+    for ch in ftype[i:]:
+        if ch in "(<":
+            depth += 1
+            if depth == 1:
+                continue
+        elif ch in ")>":
+            depth -= 1
+            if depth == 0:
+                break
+        if ch == "," and depth == 1:
+            out.append(cur.strip()); cur = ""
+        else:
+            cur += ch
+    if cur.strip() and cur.strip() != "void":
+        out.append(cur.strip())
+    return out
+
+
 def short_class(t):
     t = t.replace("const ", "").replace("Parma_Polyhedra_Library::", "").replace("Interfaces::C::", "")
     t = re.sub(r"\s*[*&]+$", "", t).strip()
     return t
+
+
+def norm_type(t):
+    """C++ type -> the identifier the interface uses for it: BD_Shape<double> -> BD_Shape_double."""
+    t = t.replace("::", "_").replace("<", "_").replace(">", "").replace(", ", "_").replace(",", "_").replace(" ", "_")
+    return NAMING.get("type_alias", {}).get(t, t)
 
 
 def classify_param(t, dt):
@@ -214,7 +246,7 @@ def analyse_function(fd, fname, enum_values):
     else:
         main = body
         handlers = []
-    st = {"rets": [], "terns": [], "deletes": 0, "deleteParams": [], "news": 0, "throws": 0, "calls": 0,
+    st = {"arms": [], "notifySeen": 0, "rets": [], "terns": [], "deletes": 0, "deleteParams": [], "news": 0, "throws": 0, "calls": 0,
           "constcast": 0, "callees": [], "boolcalls": 0}
 
     def param_of(expr):
@@ -241,11 +273,22 @@ def analyse_function(fd, fname, enum_values):
             return {"k": "lit", "v": -int(strip_transparent(inner(e0)[0])["value"])}
         if k == "DeclRefExpr" and (e0.get("referencedDecl") or {}).get("kind") == "EnumConstantDecl":
             nm = e0["referencedDecl"]["name"]
-            return {"k": "err", "name": nm, "v": enum_values.get(nm)}
+            if nm in enum_values:
+                return {"k": "err", "name": nm, "v": enum_values[nm]}
+            return {"k": "expr", "type": qt(e0), "node": "enum:" + nm}
         if k == "ConditionalOperator":
             t = tern_shape(e0)
             if t is not None:
                 d = dict(t); d["k"] = "tern"; return d
+        if k == "CallExpr" and (callee_name(e0) or "").startswith("ppl_") and qt(e0) == "int":
+            return {"k": "delegate", "to": callee_name(e0)}
+        if qt(e0) in ("bool", "const bool"):
+            neg = False
+            c0 = e0
+            while c0.get("kind") == "UnaryOperator" and c0.get("opcode") == "!":
+                neg = not neg
+                c0 = strip_transparent(inner(c0)[0])
+            return {"k": "boolv", "neg": neg}
         return {"k": "expr", "type": qt(e0), "node": k}
 
     def tern_shape(e0):
@@ -266,13 +309,42 @@ def analyse_function(fd, fname, enum_values):
                     neg = not neg
         return {"neg": neg, "t": int(a0["value"]), "e": int(b0["value"]), "cond": qt(c0), "condKind": c0.get("kind")}
 
+    static_exc = {}
+
     def walk(node, parents, in_handler):
         k = node.get("kind")
         if k in CALL_KINDS:
             st["calls"] += 1
+        if k == "CallExpr" and callee_name(node) == "notify_error" and not in_handler:
+            st["notifySeen"] += 1
         if k == "ReturnStmt" and not in_handler:
             ich = inner(node)
-            st["rets"].append(ret_shape(ich[0]) if ich else {"k": "void"})
+            r = ret_shape(ich[0]) if ich else {"k": "void"}
+            if r["k"] == "err":
+                r["notified"] = st["notifySeen"] > 0
+            st["rets"].append(r)
+        if k == "VarDecl" and node.get("storageClass") == "static":
+            base = re.sub(r"\s*&$", "", qt(node).replace("const ", "")).strip()
+            if base in STD_CLASSES:
+                static_exc[node["id"]] = STD_CLASSES[base]
+        if k == "CXXNewExpr" and re.search(r"Watchdog|Weightwatch|Threshold_Watcher", qt(node)):
+            lhs = None
+            for par in reversed(parents):
+                if par.get("kind") == "BinaryOperator" and par.get("opcode") == "=":
+                    l0 = strip_transparent(inner(par)[0])
+                    if l0.get("kind") == "DeclRefExpr":
+                        lhs = (l0.get("referencedDecl") or {}).get("name")
+                    break
+            thrown = []
+
+            def refs(n):
+                if n.get("kind") == "DeclRefExpr" and (n.get("referencedDecl") or {}).get("id") in static_exc:
+                    thrown.append(static_exc[n["referencedDecl"]["id"]])
+                for y in inner(n):
+                    refs(y)
+            refs(node)
+            st["arms"].append({"object": lhs, "throws": thrown[0] if thrown else None,
+                               "type": norm_type(short_class(qt(node)))})
         if k == "ConditionalOperator" and not in_handler:
             t = tern_shape(node)
             if t is not None:
@@ -283,7 +355,7 @@ def analyse_function(fd, fname, enum_values):
             st["deleteParams"].append(plist.index(p) if p is not None else -1)
         if k == "CXXNewExpr":
             st["news"] += 1
-            st["callees"].append("new " + short_class(qt(node)))
+            st["callees"].append("new " + norm_type(short_class(qt(node))))
         if k == "CXXThrowExpr" and not in_handler:
             st["throws"] += 1
         if k == "CXXConstCastExpr":
@@ -309,9 +381,26 @@ def analyse_function(fd, fname, enum_values):
                 while j >= 0 and parents[j].get("kind") in TRANSPARENT:
                     j -= 1
                 par = parents[j] if j >= 0 else None
-                if par is not None and par.get("kind") == "CallExpr" and callee_name(par) in CONV_FUNS \
-                        and len(inner(par)) == 2:
-                    d["convs"].append(callee_name(par))
+                child = parents[j + 1] if j + 1 < len(parents) else node
+                cn = callee_name(par) if par is not None and par.get("kind") == "CallExpr" else None
+                if cn in CONV_FUNS and len(inner(par)) == 2:
+                    # to_const must yield a pointer to const, to_nonconst a pointer to non-const
+                    isconst = qt(par).startswith("const ")
+                    if (cn == "to_const") == isconst:
+                        d["convs"].append(cn)
+                    else:
+                        d["other"] += 1
+                elif cn and cn.startswith("ppl_"):
+                    args = inner(par)[1:]
+                    idx = [i for i, a in enumerate(args) if a is child]
+                    ptypes = split_params(qt(strip_transparent(inner(par)[0])))
+                    kind = classify_param(ptypes[idx[0]], "")[0] if idx and idx[0] < len(ptypes) else "other"
+                    if kind == "constHandle":
+                        d["convs"].append("pass_const")
+                    elif kind == "handle":
+                        d["convs"].append("pass_nonconst")
+                    else:
+                        d["other"] += 1
                 else:
                     d["other"] += 1
         for x in inner(node):
@@ -426,6 +515,35 @@ def extract_tu(repo, src):
     return {"functions": funs, "decls": decls, "enums": {"ppl_enum_error_code": ev}}
 
 
+def extract_resets(repo, src):
+    """reset_timeout / reset_deterministic_timeout: which global watchdog pointer each deletes, and whether
+    it clears abandon_expensive_computations."""
+    text = run_clang(repo, src, "reset_")
+    out = {}
+    for o in iter_toplevel(text):
+        if o.get("kind") != "FunctionDecl" or o.get("name") not in ("reset_timeout", "reset_deterministic_timeout"):
+            continue
+        body = [x for x in inner(o) if x.get("kind") == "CompoundStmt"]
+        if not body:
+            continue
+        info = {"deletes": [], "clearsFlag": False}
+
+        def w(n):
+            if n.get("kind") == "CXXDeleteExpr" and inner(n):
+                d = strip_transparent(inner(n)[0])
+                if d.get("kind") == "DeclRefExpr":
+                    info["deletes"].append((d.get("referencedDecl") or {}).get("name"))
+            if n.get("kind") == "BinaryOperator" and n.get("opcode") == "=":
+                l0 = strip_transparent(inner(n)[0])
+                if l0.get("kind") == "DeclRefExpr" and (l0.get("referencedDecl") or {}).get("name") == "abandon_expensive_computations":
+                    info["clearsFlag"] = True
+            for y in inner(n):
+                w(y)
+        w(body[0])
+        out[o["name"]] = info
+    return {"resets": out}
+
+
 PROBE = """#include "ppl_c_implementation_common_defs.hh"
 using namespace Parma_Polyhedra_Library;
 using namespace Parma_Polyhedra_Library::Interfaces::C;
@@ -451,9 +569,12 @@ def cached(key, fn):
 
 
 def _one(args):
-    repo, src, hh = args
+    repo, src, hh, what = args
     with open(src, "rb") as f:
-        key = hashlib.sha256((EXTRACTOR_VERSION + hh + os.path.basename(src)).encode() + f.read()).hexdigest()[:24]
+        key = hashlib.sha256((EXTRACTOR_VERSION + hh + what + os.path.basename(src)).encode() + f.read()).hexdigest()[:24]
+    if what == "resets":
+        v, hit = cached(key, lambda: extract_resets(repo, src))
+        return "#resets", v, hit
     v, hit = cached(key, lambda: extract_tu(repo, src))
     return os.path.basename(src), v, hit
 
@@ -476,7 +597,8 @@ def build_table(repo, jobs=4):
     probe = os.path.join(probe_dir, "ppl_c_pplv_probe.cc")
     with open(probe, "w") as f:
         f.write(PROBE)
-    work = [(repo, s, hh) for s in srcs] + [(repo, probe, hh)]
+    common = os.path.join(repo, "interfaces", "C", "ppl_c_implementation_common.cc")
+    work = [(repo, s, hh, "tu") for s in srcs] + [(repo, probe, hh, "tu"), (repo, common, hh, "resets")]
     res = {}
     hits = 0
     with concurrent.futures.ThreadPoolExecutor(max_workers=jobs) as ex:
@@ -487,6 +609,7 @@ def build_table(repo, jobs=4):
         os.unlink(probe); os.rmdir(probe_dir)
     except OSError:
         pass
+    resets = res.pop("#resets")["resets"]
     pv = res.pop("ppl_c_pplv_probe.cc")
     probe_fn = [f for f in pv["functions"] if f["name"] == "ppl_pplv_probe_catch_all"]
     if not probe_fn:
@@ -509,7 +632,7 @@ def build_table(repo, jobs=4):
     undefined = sorted(n for n in decls if n not in defined)
     tab = {"repo": repo, "files": sorted(res), "errorCodes": error_codes, "catchAll": catch_all,
            "entries": entries, "skipped": skipped, "declaredNotDefined": undefined, "duplicates": dup,
-           "cacheHits": hits, "tus": len(work)}
+           "resets": resets, "cacheHits": hits, "tus": len(work)}
     annotate(tab)
     return tab
 
@@ -545,7 +668,10 @@ def annotate(tab):
                 if n.startswith("ppl_" + h + "_"):
                     kind, cls, op = "method", h, n[len("ppl_" + h + "_"):]
                     break
+        if kind == "delete" and f["params"] and f["params"][0]["htype"]:
+            cls = f["params"][0]["htype"]
         f["kind"], f["cls"], f["op"] = kind, cls, op
+        f["retInt"] = f["ret"] == "int"
         # return convention
         shapes = set()
         for r in f["rets"]:
@@ -553,8 +679,10 @@ def annotate(tab):
                 shapes.add("lit%d" % r["v"] if r["v"] in (0, 1) else "litN")
             elif r["k"] == "err":
                 shapes.add("err")
-            elif r["k"] == "tern":
+            elif r["k"] in ("tern", "boolv"):
                 shapes.add("tern")
+            elif r["k"] == "delegate":
+                shapes.add("lit0")
             else:
                 shapes.add("expr")
         if "expr" in shapes or "litN" in shapes:
@@ -564,6 +692,66 @@ def annotate(tab):
         else:
             conv = "status"
         f["retConv"] = conv
+    names = set(f["name"] for f in tab["entries"])
+    vocab = sorted(set(hs) | set(NAMING.get("extra_classes", [])), key=lambda s: (-len(s), s))
+    for f in tab["entries"]:
+        f["promised"] = promised(f, names, vocab)
+
+
+def class_token(op, vocab):
+    for c in vocab:
+        if op == c or op.startswith(c + "_"):
+            return c
+    return None
+
+
+def promised(f, names, vocab):
+    """the C++ callee(s) the name of entry point f promises, per gen/c20_naming.json ([] = no promise)."""
+    n, op, kind = f["name"], f["op"], f["kind"]
+    if n in NAMING.get("no_promise", []):
+        return []
+    if kind == "delete":
+        return []                      # covered by C20.delete_once
+    if kind == "assign":
+        return [NAMING["assign"]]
+    if kind == "new":
+        c = class_token(op, vocab)
+        return ["new " + c] if c else []
+    if kind == "io":
+        for pre, m in NAMING["io_prefix"].items():
+            if op.startswith(pre):
+                return [m]
+        return []
+    if kind == "global" and op in NAMING["global"]:
+        return [NAMING["global"][op]]
+    if kind == "method":
+        key = f["cls"] + "::" + op
+        if key in NAMING["method"] or op in NAMING["method"]:
+            m = NAMING["method"].get(key, NAMING["method"].get(op))
+            return m if isinstance(m, list) else [m]
+        for pre, m in NAMING["method_prefix"].items():
+            if op.startswith(pre):
+                return [m]
+        if not op.endswith("_with_tokens") and (n + "_with_tokens") in names:
+            return [n + "_with_tokens"]    # delegation to the token-taking variant
+    base = op
+    changed = True
+    while changed:
+        changed = False
+        for suf in NAMING.get("strip_suffixes", []):
+            if base.endswith(suf) and len(base) > len(suf):
+                if kind == "global" and suf == "_2":
+                    continue               # termination_test_MS_<Class>_2 wraps termination_test_MS_2
+                base = base[:-len(suf)]; changed = True
+        if NAMING.get("strip_class_suffix"):
+            for c in vocab:
+                if base.endswith("_" + c):
+                    base = base[:-len(c) - 1]; changed = True
+                    break
+                if kind == "global" and ("_" + c + "_") in base:
+                    base = base.replace("_" + c + "_", "_"); changed = True
+                    break
+    return [base]
 
 
 # ----------------------------------------------------------------------------- Lean emission
@@ -608,6 +796,8 @@ def emit_lean(tab, chunk=100):
     codes = tab["errorCodes"]
     strs = {}
 
+    strs[""] = 0            # id 0 is reserved: "none"
+
     def sid(s):
         if s not in strs:
             strs[s] = len(strs)
@@ -637,24 +827,48 @@ def emit_lean(tab, chunk=100):
         for p in f["params"]:
             nc = sum(1 for c in p["convs"] if c == "to_const")
             nn = sum(1 for c in p["convs"] if c == "to_nonconst")
-            ps.append("⟨%s,%d,%d,%d,%d⟩" % (PK_LEAN[p["kind"]], sid(p["htype"]) if p["htype"] else 0, nc, nn, p["other"]))
+            pc = sum(1 for c in p["convs"] if c == "pass_const")
+            pn = sum(1 for c in p["convs"] if c == "pass_nonconst")
+            ps.append("⟨%s,%d,%d,%d,%d,%d,%d⟩" % (PK_LEAN[p["kind"]], sid(p["htype"]) if p["htype"] else 0, nc, nn, pc, pn, p["other"]))
         terns = ["⟨%s,%s,%s⟩" % ("true" if t["neg"] else "false", lean_int(t["t"]), lean_int(t["e"])) for t in f["terns"]]
         rets = []
         for r in f["rets"]:
             if r["k"] == "lit":
                 rets.append("(.lit %s)" % lean_int(r["v"]))
             elif r["k"] == "err":
-                rets.append("(.err %s)" % lean_int(r["v"] if r["v"] is not None else 0))
+                rets.append("(.%s %s)" % ("errNotified" if r.get("notified") else "err", lean_int(r["v"])))
             elif r["k"] == "tern":
                 rets.append("(.tern %s %s %s)" % ("true" if r["neg"] else "false", lean_int(r["t"]), lean_int(r["e"])))
+            elif r["k"] == "boolv":
+                rets.append("(.boolv %s)" % ("true" if r["neg"] else "false"))
+            elif r["k"] == "delegate":
+                rets.append(".delegate")
             else:
                 rets.append(".expr")
         dels = "[%s]" % ",".join(str(d + 1) for d in f["deleteParams"])  # 0 = not a parameter, i+1 = parameter i
-        rows.append("E %d %d %s %s %d [%s] %s %d [%s] [%s] %s %d %d %d %d %d %d [%s]" % (
-            sid(f["name"]), sid(f["file"]), KIND_LEAN[f["kind"]], RC_LEAN[f["retConv"]], sid(f["cls"]) if f["cls"] else 0,
+        # the promise is kept if one of the promised callees is called; the row carries that one (or the first)
+        prom = [m for m in f["promised"] if m in f["callees"]] or f["promised"]
+        rows.append("E %d %d %s %s %s %d [%s] %s %d [%s] [%s] %s %d %d %d %d %d %d [%s]" % (
+            sid(f["name"]), sid(f["file"]), KIND_LEAN[f["kind"]], RC_LEAN[f["retConv"]], "true" if f["retInt"] else "false",
+            sid(f["cls"]) if f["cls"] else 0,
             ",".join(ps), "true" if f["try"] else "false", cv,
-            ",".join(rets), ",".join(terns), dels, f["news"], f["throws"], f["calls"], f["constcast"], f["boolcalls"],
-            sid(f["op"]), ",".join(str(sid(c)) for c in f["callees"])))
+            ",".join(rets), ",".join(terns), dels, f["news"], f["throws"], f["calls"], f["constcast"],
+            sid(f["op"]), sid(prom[0]) if prom else 0, ",".join(str(sid(c)) for c in f["callees"])))
+    objmap = {"p_timeout_object": ".timeout", "p_deterministic_timeout_object": ".detTimeout"}
+    setters = []
+    for f in tab["entries"]:
+        for a in f["arms"]:
+            setters.append("⟨%d, %s, %s⟩" % (sid(f["name"]), objmap.get(a["object"], ".none"),
+                                          "(some %s)" % EXC_LEAN[a["throws"]] if a["throws"] in EXC_LEAN else "none"))
+    kindmap = {"reset_timeout": ".timeout", "reset_deterministic_timeout": ".detTimeout"}
+    rfs = []
+    for nm in sorted(tab["resets"]):
+        r = tab["resets"][nm]
+        dl = objmap.get(r["deletes"][0], ".none") if len(r["deletes"]) == 1 else ".none"
+        rfs.append("⟨%s, %s, %s⟩" % (kindmap[nm], dl, "true" if r["clearsFlag"] else "false"))
+    out.append("/-- entry points that arm a watchdog: where it is stored, which exception class it will throw. -/")
+    out.append("def timeoutSetters : List TimeoutSetter := [%s]" % ", ".join(setters))
+    out.append("def resetFns : List ResetFn := [%s]\n" % ", ".join(rfs))
     if not variants:
         variants = [ca]
     out.append("/-- the distinct handler lists found after the function-try-blocks of the entry points. -/")
